@@ -79,7 +79,7 @@ struct RbHarness : Harness {
     const char *name() const override { return "rbsim"; }
     std::vector<std::string> props() const override { return {"C19"}; }
     std::vector<std::string> probes(const std::string &) const override {
-        return {"override_eviction", "override_eviction_capacity_1", "put_on_full_dropped", "head_wrapped", "tail_wrapped", "get_on_empty", "clear", "iterator_across_wrap", "capacity_of_64k_elements_or_more"};
+        return {"override_eviction", "override_eviction_capacity_1", "put_on_full_dropped", "head_wrapped", "tail_wrapped", "get_on_empty", "clear", "iterator_across_wrap", "capacity_of_64k_elements_or_more", "octet_ring_with_more_than_255_slots"};
     }
     uint64_t runs(const std::string &, const Tier &t) const override { return t.thorough() ? 5000000 : 4000000; }
 
@@ -117,6 +117,20 @@ struct RbHarness : Harness {
             else if (k < wp + wc + wa) ops.push(r.chance(1, 3) ? "clear" : (r.chance(1, 2) ? "ovr1" : "ovr0"));
             else ops.push(r.chance(1, 2) ? "obs" : "iter");
         }
+        if (r.chance(1, 60)) {   // rings of a few hundred elements (indices beyond what an octet holds), all element types, driven by bulk puts and gets
+            static const int64_t CAPS[] = {255, 256, 257, 300, 511, 1000};
+            cap = CAPS[r.below(6)]; p["cap"] = (long long)cap; p["type"] = (long long)r.below(5);
+            ops = Json::arr();
+            auto bulk = [&](const char *op, int64_t k) { Json o = Json::obj(); o["op"] = op; o["k"] = (long long)k; ops.push(o); };
+            if (r.chance(1, 3)) ops.push("ovr1");
+            int rounds = (int)r.range(2, 6);
+            for (int i = 0; i < rounds; ++i) {
+                bulk("put", r.chance(1, 3) ? cap : r.range(1, cap + 3)); if (r.chance(1, 2)) ops.push("iter");
+                bulk("get", r.range(1, cap)); if (r.chance(1, 2)) ops.push("obs");
+                int few = (int)r.below(4); for (int q = 0; q < few; ++q) ops.push(r.chance(1, 2) ? "put" : "get");
+            }
+            ops.push("iter");
+        } else
         if (r.chance(1, t.thorough() ? 600 : 2500)) {   // rarely a ring of 2^16 elements and more, driven by bulk puts and gets (capacities, indices and counts that do not fit 16 bits)
             static const int64_t CAPS[] = {65535, 65536, 65537, 70000};
             cap = CAPS[r.below(4)]; p["cap"] = (long long)cap; if (type == 0 && r.chance(1, 2)) p["type"] = 2;
@@ -139,6 +153,7 @@ struct RbHarness : Harness {
     void exec(const Json &plan, Ctx &c) override {
         int64_t cap = plan.geti("cap", 1); if (cap < 1) cap = 1; if (cap > 80000) cap = 80000;
         if (cap >= 65536) COUNT("probe.capacity_of_64k_elements_or_more");
+        if (cap > 255 && cap < 65536 && (plan.geti("type") % 5) == 0) COUNT("probe.octet_ring_with_more_than_255_slots");
         int type = (int)(plan.geti("type") % 5); if (type < 0) type = 0;
         std::unique_ptr<Ring> R;
         switch (type) {
